@@ -92,7 +92,7 @@ pub struct SynGen<'a, 'b, 'o> {
 }
 
 const TEXTS_PLAIN: &[&str] = &["", "a", "abc", "key", "hello world", "x;y", "a//b", "caf\u{e9}", "\u{4e16}\u{754c}", "\u{1f600}"];
-const TEXTS_ESC: &[&str] = &["q\"q", "back\\slash", "line\nbreak", "tab\there", "\"", "\\", "a\"b\\c", "nul\u{0}", "del\u{7f}", "cr\rlf"];
+const TEXTS_ESC: &[&str] = &["C:\\users", "\\u", "\\uD800x", "\\u{110000}", "q\"q", "back\\slash", "line\nbreak", "tab\there", "\"", "\\", "a\"b\\c", "nul\u{0}", "del\u{7f}", "cr\rlf"];
 const FLOATS: &[f64] = &[1.5, -0.25, 0.5, 1.0, -1.0, 10.0, 1e10, 1e-7, 3.25, 0.1, 1e300, 123456.789];
 const INTS: &[i128] = &[0, 1, 2, 3, 10, 23, 24, 255, 256, 65535, 65536, -1, -2, -24, -25, -256, 1000000, 4294967295, 4294967296];
 
